@@ -40,6 +40,10 @@ class Translate(Domain):
         )
         shifted_points = points[:, list(self.space.keys())].as_tensor - translate_values
         # points[:, list(self.space.keys())] = Points(shifted_points, self.space)
+        # the points may carry parameter values themselves, keep them
+        params = points.join(params)
+        param_vars = [var for var in params.space if var not in self.space]
+        params = params[:, param_vars] if len(param_vars) > 0 else Points.empty()
         return self.domain._contains(Points(shifted_points, self.space), params)
 
     def sample_random_uniform(
